@@ -274,6 +274,9 @@ func (r *Run) footprintThenCells(fns []*Func) {
 					}
 				case EvAssign:
 					for _, l := range ev.Lhs {
+						if _, plain := ast.Unparen(l).(*ast.Ident); plain {
+							continue // a local that is given the value (a := b.Center), not the plane's field
+						}
 						if isFootprint(r.P.Canon(ev.Fn, l)) {
 							changed = ev.Pos
 						}
